@@ -286,6 +286,15 @@ Example C14_example_service :
      BUnit; BWait [1; 2] []; BWait [] []; BRan [CbRec 1 2 true false false true]; BUnit; BWait [] []].
 Proof. vm_compute. reflexivity. Qed.
 
+(* the extreme of the duration dimension: AddTimer(math.MaxInt64 ns) and After(100 years) stay
+   armed while a timer of 999999 ns and one of -1 ns fire; the "never" timers can be cancelled *)
+Example C14_example_far :
+  show [OCreateNs 9223372036854775807 true 7 []; OCreateNs 999999 false 8 []; OCreateNs (-1) true 9 [];
+        OCreateNs 3153600000000000000 false 6 []; OSettle 2; ODoAll; OCancel 0; OSettle 4; ODoAll]
+  = [BUnit; BUnit; BUnit; BUnit; BQueued [1; 2];
+     BRan [CbRec 1 1 true false false true; CbRec 2 1 true false false true]; BUnit; BQueued []; BRan []].
+Proof. vm_compute. reflexivity. Qed.
+
 (* the hypotheses of the pre-start theorems are met: timer 0 expired before Start() *)
 Example C14_example_prestart :
   let xs := [SCreate 2 true 7 [APanic]; SAdvance 2; SFireCheck 0; SFireSend 0] in
